@@ -139,7 +139,9 @@ CLAIMED = {
          "(correct_last_timing / end back-filling) changes times only (setEnd_preserves_nodes, correctLast_only_times), _format_italics keeps the visible characters "
          "pass by pass, create_and_store appends exactly the buffer's visible characters to the stash (store_conserves_text) and the roll-up flush moves them "
          "there (rollUp_conserves_text); any sequence of character words and carriage returns extends the held text by exactly the characters sent "
-         "(rollup_stream_conserves, induction over the model's word function). The full roll-up / paint-on behaviour "
+         "(rollup_stream_conserves, induction over the model's word function); at a carriage return the rolled-out row is stored from the time of the previous "
+         "carriage return to the instant of this one, which becomes the next row's start - each caption ends exactly when the next one begins "
+         "(rollup_rows_contiguous, stored_captions_carry_times). The full roll-up / paint-on behaviour "
          "(mode switches, CR, RDC, implicit flush) is in the executable reader model, compared with the implementation and with the conservation / ordering / "
          "contiguity oracle on random programs (depths 2-4, row addresses, doubling, drop/non-drop, gaps)."),
    ref="§3 C16", technique="Lean 4 proof of the conservation lemmas + state-machine correspondence + conservation/contiguity oracle",
